@@ -35,7 +35,7 @@ known("KF6-unbuffered-invalid-engine-state", ["C04"],
 _C04 = json.load(open('/verif/tools/c04_corpus_known.json'))
 known("KF38-unbuffered-modes-fail-on-listed-corpus-cases", ["C04"],
       "the unbuffered engine modes (unbuffered depth-first, rc_first, seeded random order) of the pinned tree fail on cyclic programs (errors of KF5 / KF6 / KF6b, decisions of KF7, lost or different answers of KF27); on the FIXED corpus of C04 (vlib/checks/c04.py corpus(): 290 cyclic programs x 7 modes) the failing (program, mode) pairs are listed one by one in tools/c04_corpus_known.json (%d pairs, the same in three runs), so that any other pair that starts to fail is reported" % len(_C04["cases"]),
-      "tools/c04_corpus_known.json; regenerate on the pinned tree with tools/c04_corpus.py",
+      "tools/c04_corpus_known.json; regenerate on the pinned tree with tools/corpus_known.py C04",
       match={"cyclic": "corpus", "corpus_case": _C04["cases"]})
 known("KF7-unbuffered-negative-cycle-decision-differs", ["C04"],
       "on programs whose ground dependency graph has a cycle through negation (C02 class 'either'), unbuffered modes and the default engine take different accept/reject decisions (checkCycle on re-entry of an active goal is order dependent)",
@@ -79,16 +79,21 @@ EXP_CL = ["negative-cycle-on-stratified", "prob", "missing-instance", "spurious-
 known("KF12-to-prolog-merges-groundings-of-an-ad", ["C25"],
       "to_prolog prints every grounding of an annotated disjunction as the same clause and merges the auxiliary bodies of the groundings (0.3::a; 0.4::b :- h, \\+aux_1. printed twice with aux_1 :- g(c1). aux_1 :- g(c2).): the exported text has a different distribution",
       "0.1::g(c1). 0.6::g(c2). 0.5::h. 0.3::a; 0.4::b :- d(Y), h, \\+g(Y). d(c1). d(c2). query(a).",
-      match_any=[{"clause": c, "variant": v, "ad_nonground": True} for c in EXP_CL for v in ("export", "export-dag")])
+      match_any=[{"clause": c, "variant": v, "ad_nonground": True, "corpus": None} for c in EXP_CL for v in ("export", "export-dag")])
 known("KF13-to-prolog-aux-name-clash-for-negated-bodies", ["C25"],
       "to_prolog gives two different auxiliary nodes of negated subgoals the same name (aux_1 :- g. aux_1 :- f.), so negated literals of the exported program refer to the wrong disjunction",
       "0.3::f. 0.25::g. a :- f, \\+g. a :- f, c. b :- \\+g, g. b :- a. c :- \\+f. c :- a. query(a). query(b).",
-      match_any=[{"clause": c, "variant": v, "has_negation": True} for c in EXP_CL for v in ("export", "export-dag")])
+      match_any=[{"clause": c, "variant": v, "has_negation": True, "corpus": None} for c in EXP_CL for v in ("export", "export-dag")])
 known("KF14-to-prolog-evidence-on-deterministic-nodes", ["C25"],
       "to_prolog exports evidence on deterministically true/false nodes with the wrong definition or sign (evidence(a,false) on a false atom becomes 'a :- fail. a. evidence(a).')",
       "0.5::f. a :- f, a. query(a). evidence(a, false).",
-      match_any=[{"clause": c, "variant": v, "has_evidence": True} for c in EXP_CL for v in ("export", "export-dag")])
+      match_any=[{"clause": c, "variant": v, "has_evidence": True, "corpus": None} for c in EXP_CL for v in ("export", "export-dag")])
 
+_C25 = json.load(open('/verif/tools/c25_corpus_known.json'))
+known("KF39-to-prolog-fails-on-listed-corpus-cases", ["C25"],
+      "to_prolog of the pinned tree changes the distribution of many programs with negated subgoals, evidence on deterministic nodes or non-ground annotated disjunctions (KF12, KF13, KF14); on the FIXED corpus of C25 (vlib/checks/c25.py corpus(): 340 programs x export / export with cycle breaking) the failing (program, variant) pairs are listed one by one in tools/c25_corpus_known.json (%d pairs, the same in two runs), so that any other pair that starts to fail is reported" % len(_C25["cases"]),
+      "tools/c25_corpus_known.json; regenerate on the pinned tree with tools/corpus_known.py C25",
+      match={"corpus": True, "corpus_case": _C25["cases"]})
 known("KF17-sampler-propagate-evidence-rejects-everything", ["C22"],
       "sample --propagate-evidence: when an evidence atom is decided without sampling (negative evidence on an atom that has no matching fact, evidence on a derived atom that is deterministically true/false given the propagated facts), verify_evidence's propagated-evidence path rejects every sample, so the sampler never produces one",
       "0.5::g(c1). 0.4::h. query(h). evidence(g(c2),false).   sample(model, propagate_evidence=True) rejects all samples",
@@ -174,16 +179,22 @@ known("KF24-dt-keyerror-for-eliminated-decision", ["C21"],
 known("KF25-bn-export-crashes", ["C31", "C25"],
       "the bn task crashes on ordinary programs: KeyError in LogicFormula.extract_ads when avoid_name_clash=False collapses a single-child disjunction and the AD head names are lost; AttributeError in clause_to_cpt when a clause head carries no probability object",
       "0.2::c; 0.5::d. query(c). query(d).  (problog bn -> KeyError);  0.8::f. d(c1). q :- d(X), \\+f. query(q).  (AttributeError)",
-      match_any=[{"clause": "crash", "error": "KeyError", "site": "formula.py:extract_ads"},
-                 {"clause": "crash", "error": "AttributeError", "site": "bayesnet.py:clause_to_cpt"}])
+      match_any=[{"clause": "crash", "error": "KeyError", "site": "formula.py:extract_ads", "corpus": None},
+                 {"clause": "crash", "error": "AttributeError", "site": "bayesnet.py:clause_to_cpt", "corpus": None}])
 known("KF26-bn-export-drops-or-misroutes-variables", ["C31"],
       "the exported network can lack the variable of a queried probabilistic fact that is also used in a rule body with other variables, and can contain a directed cycle between a head variable and its choice variable when two annotated disjunctions share head atoms",
       "0.1::h(c2). d(c1). d(c2). s :- d(X), h(Y). query(h(c2)). query(s).  (network has only c0 and s);  0.2::e; 0.2::d; 0.2::c; 0.2::a. 0.3::e; 0.3::a. q :- a, d. query(q).  (cycle a <-> c0)",
-      match_any=[{"clause": "query-variable-missing"}, {"clause": "network-cyclic"}, {"clause": "network-not-well-formed"}])
+      match_any=[{"clause": "query-variable-missing", "corpus": None}, {"clause": "network-cyclic", "corpus": None},
+                 {"clause": "network-not-well-formed", "corpus": None}])
 known("KF36-bn-export-ad-head-in-conjunction", ["C31"],
       "when a head of a body-free annotated disjunction is used in a rule body together with another literal (q :- v, e.) and alone elsewhere (r :- e.), the exported network conditions the AD's choice variable on the other literal (Factor (c0 | v)) and loses the clause that uses the head alone: marginals change",
       "0.5::v. 0.1::d; 0.2::e; 0.1::c; 0.6::b. q :- v, e. q :- v. r :- e. r :- v, b. s :- b. query(q). query(r). query(s).  (problog bn: P(r) = 0.3, exact 0.5)",
-      match={"clause": "marginal-differs", "has_ad": True, "ad_head_in_conj": True})
+      match={"clause": "marginal-differs", "has_ad": True, "ad_head_in_conj": True, "corpus": None})
+_C31 = json.load(open('/verif/tools/c31_corpus_known.json'))
+known("KF40-bn-export-fails-on-listed-corpus-cases", ["C31"],
+      "the bn task of the pinned tree crashes (KF25), drops or misroutes variables (KF26) or conditions an AD's choice variable wrongly (KF36) on many programs; on the FIXED corpus of C31 (vlib/checks/c31.py corpus(): 300 programs) the failing programs are listed one by one in tools/c31_corpus_known.json (%d programs, the same in two runs), so that any other program that starts to fail is reported" % len(_C31["cases"]),
+      "tools/c31_corpus_known.json; regenerate on the pinned tree with tools/corpus_known.py C31",
+      match={"corpus": True, "corpus_case": _C31["cases"]})
 known("KF27-unbuffered-modes-wrong-answers-on-cycles", ["C04"],
       "on programs with (positive) cycles the unbuffered / random-order modes can lose answers or report different probabilities than the default engine (besides the errors of KF5/KF6): results of a cycle are forwarded before the cycle is closed",
       "0.3::f. 0.1::g. ... cyclic non-ground program, documented random order: q(c1,c2) (P = 0.16) is not reported (replay: ./check C04 --seed 2)",
